@@ -74,6 +74,15 @@ type Scenario struct {
 	PreToRouter bool     `json:"pre_first_exit_to_router"`
 	PreResults  []PreRes `json:"pre_results"`
 
+	// multi-run scenarios: the pre node sends a localized message and then enters a child flow (not terminal); the child
+	// changes the contact and completes in the same sprint; the parent goes on to the router under test, which has to
+	// see the contact as it is THEN (language for the localized arguments and category names, name/fields for operands)
+	Child       bool   `json:"child_flow"`
+	ChildLang   int    `json:"child_lang"` // -1: no set_contact_language; otherwise index into langCodes (0 clears it)
+	ChildName   string `json:"child_name"` // "": no set_contact_name
+	ChildAge    string `json:"child_age"`  // "": no set_contact_field age
+	ChildGender string `json:"child_gender"`
+
 	Loc Loc `json:"localization"`
 
 	ContactLang int    `json:"contact_lang"`
@@ -102,6 +111,14 @@ func (sc *Scenario) firstCat(u string) *CatDef {
 		}
 	}
 	return nil
+}
+
+// the contact's language when the router under test routes
+func (sc *Scenario) effLang() int {
+	if sc.Child && sc.ChildLang >= 0 {
+		return sc.ChildLang
+	}
+	return sc.ContactLang
 }
 
 func (sc *Scenario) destUUID(d int) string {
@@ -133,6 +150,7 @@ const (
 var groupNames = []string{"Testers", "Males", "Customers"}
 
 func flowUUID() string      { return mkUUID(kFlow, 1) }
+func childFlowUUID() string { return mkUUID(kFlow, 3) }
 func probeFlowUUID() string { return mkUUID(kFlow, 2) }
 func nodeP() string         { return mkUUID(kNode, 1) }
 func nodeR() string         { return mkUUID(kNode, 2) }
@@ -398,6 +416,7 @@ func genCommon(r *hx.Rand, sc *Scenario) {
 	sc.Loc = Loc{}
 	sc.TimeoutCat = -1
 	sc.Default = -1
+	sc.ChildLang = -1
 }
 
 // exits of the node under test, with destinations D_k or none
@@ -421,6 +440,27 @@ func genPre(r *hx.Rand, sc *Scenario, allowPre bool) {
 	sc.PreToRouter = r.Chance(19, 20)
 	if r.Chance(3, 5) {
 		sc.PreResults = append(sc.PreResults, PreRes{Name: "pre", Value: hx.Pick(r, words), Category: hx.Pick(r, []string{"Red", "Blue", "Cat", "", "Success"})})
+	}
+	if sc.PreToRouter && r.Chance(2, 5) {
+		sc.Child = true
+		switch {
+		case len(sc.Allowed) > 0 && r.Chance(3, 5):
+			sc.ChildLang = hx.Pick(r, sc.Allowed)
+		case r.Chance(4, 5):
+			sc.ChildLang = r.Intn(len(langCodes))
+		}
+		if r.Chance(1, 2) {
+			sc.ChildName = hx.Pick(r, []string{"red", "Yes", "Ann Lee", "23", "blue"})
+		}
+		if r.Chance(1, 3) {
+			sc.ChildAge = hx.Pick(r, []string{"5", "10", "23", "12"})
+		}
+		if r.Chance(1, 3) {
+			sc.ChildGender = hx.Pick(r, []string{"red", "Male", "yes"})
+		}
+		for _, l := range []int{2, 3} {
+			sc.Loc.set(langCodes[l], mkUUID(kAction, 64), "text", genTranslation(r, 1, func() string { return hx.Pick(r, []string{"Bonjour", "Hola"}) }))
+		}
 	}
 	if sc.ResultName != "" && r.Chance(1, 2) {
 		// a previous result under the router's own key, often equal to what the router is going to save
@@ -571,7 +611,8 @@ func genSwitch(r *hx.Rand, id int, ext bool) *Scenario {
 		c := sc.Cases[r.Intn(len(sc.Cases))]
 		largs := c.Args
 		for _, l := range []int{2, 3} {
-			if tr := sc.Loc.get(langCodes[l], c.UUID, "arguments"); len(tr) == len(c.Args) && r.Chance(1, 2) {
+			// preferably the arguments of the language the contact has when the router routes
+			if tr := sc.Loc.get(langCodes[l], c.UUID, "arguments"); len(tr) == len(c.Args) && (r.Chance(1, 2) || l == sc.effLang()) {
 				largs = tr
 			}
 		}
